@@ -969,3 +969,22 @@ Proof. destruct v as [[|]|b]; intros H; try reflexivity. congruence. Qed.
 
 Lemma negzero_arg_refuted : y_pass_arg (FZero true) = FZero false /\ g_pass_arg (FZero true) = FZero true.
 Proof. split; reflexivity. Qed.
+
+(** r = x op y, r an existing interface variable *)
+Lemma sel_arith_ifa o k x y : is_int k = true -> arith o = true -> o <> Rem ->
+  run_row (select_bin_ifa o k) k (VInt k x) (VInt k y) = of_g k (go_arith o k x y).
+Proof.
+  intros I A N. unfold select_bin_ifa.
+  assert (H : ifa_has_closure o = true) by (destruct o; try reflexivity; try discriminate A; congruence).
+  rewrite H. apply sel_arith; assumption.
+Qed.
+
+Lemma iface_assign_refuted :
+  run_row (select_bin_ifa Rem KInt) KInt (VInt KInt 7) (VInt KInt 3) = YStop
+  /\ of_g KInt (go_arith Rem KInt 7 3) = YVal (VInt KInt 1)
+  /\ run_row (select_bin_ifa Shl KInt) KInt (VInt KInt 1) (VInt KUint 3) = YStop
+  /\ of_g KInt (go_shift Shl KInt 1 3) = YVal (VInt KInt 8)
+  /\ run_row (select_un_ifa Neg KInt8) KInt8 (VInt KInt8 5) (VInt KInt8 5) = YStop
+  /\ of_g KInt8 (go_unary Neg KInt8 5) = YVal (VInt KInt8 (-5))
+  /\ run_row (select_bin_ifa Add KInt8) KInt8 (VInt KInt8 100) (VInt KInt8 100) = YVal (VInt KInt8 (-56)).
+Proof. repeat split; vm_compute; reflexivity. Qed.
